@@ -367,6 +367,7 @@ func runC08(c *Ctx) {
 	checkSilentSkipOnlyNotExists(c, c.P.BodyOf(c.P.Func("pkg/core.getLabelAsync")), "listing.skip-only-not-exists", false)
 	checkNoRelabelAsMissing(c, "listing.no-relabel")
 	checkGenericErrorDiscipline(c, "pkg/core", "pkg/model")
+	checkBatchDistributesAllKeys(c, "listing.batch-distributes-all")
 }
 
 func types_ExprString(e ast.Expr) string { return exprString(e) }
